@@ -6,10 +6,15 @@
    * `nul_is_end`, `run_local`: the end of the input and a NUL are the same thing; the answer depends only on the bytes
      taken from the reader;
    * `never_reads_past_nul`, `incomplete_reads_to_the_end`, `empty_reads_to_the_end`, `invalid_stops_inside`,
-     `toodeep_nomem_stop_inside`: where the reader stands when the deserializer answers;
-   * `invalid_is_final`, `invalid_never_ok`, `toodeep_nomem_final`: an error that was not caused by the end of the input
-     is the answer for every input with the same beginning. The exceptions (`Dangling`: the text ends with a number byte
-     or, comments enabled, with `/`) are real: `-`, `[1,-`, `/`, `[1/` are `InvalidInput` and have accepted continuations;
+     `toodeep_stops_inside`, `nomem_stops_inside`: where the reader stands when the deserializer answers;
+   * `invalid_is_final`, `invalid_never_ok`, `toodeep_final`, `nomem_final`, `nomem_final_triple`: an error that was not
+     caused by the end of the input is the answer for every input with the same beginning. The exceptions (`Dangling`:
+     the text ends with a number byte or, comments enabled, with `/`) are real: `-`, `[1,-`, `/`, `[1/` are
+     `InvalidInput` and have accepted continuations;
+   * `NoMemory` for an unquoted key longer than `maxStrLen` (`LongTail`: the text ends with such a run of identifier
+     bytes): the key is read to its end, the byte that ends it — the terminator, when the text ends inside the key — is
+     taken as look-ahead. The code and the document are final (`nomem_final`); the number of bytes taken is not
+     (`ClassExamples`: `{abc` with `maxStrLen = 2`);
    * `incomplete_is_extendable`: an `IncompleteInput` text is a proper prefix of an accepted one, provided it is shorter
      than `maxStrLen` (`incomplete_not_extendable`: the condition cannot be dropped);
    * `prefix_of_accepted`, `prefix_of_closed_value`: the proper prefixes of an accepted text;
@@ -18,6 +23,7 @@
    Helper lemmas: AJ/Lemmas/Class*.lean (generic two-run simulation `tw_mutual`, fuel independence `fm_mutual`, the stop
    invariant `gh_mutual`, completion `inc_all`), AJ/Lemmas/DialectClass2.lean. -/
 import AJ.Lemmas.DialectClass2
+import AJ.Lemmas.ClassNoMem
 import AJ.Lemmas.ClassExt3
 import AJ.Props.C10
 set_option linter.unusedSimpArgs false
@@ -93,12 +99,69 @@ theorem invalid_stops_inside (cfg : Cfg) (L : Nat) (t : List UInt8) (h : (run cf
     rw [hx] at b2
     exact dangling_of_dang b2
 
-/-- `TooDeep` and `NoMemory` are answered before the end of the text -/
-theorem toodeep_nomem_stop_inside (cfg : Cfg) (L : Nat) (t : List UInt8)
-    (h : (run cfg L t).1 = .tooDeep ∨ (run cfg L t).1 = .noMemory) : (run cfg L t).2.2 ≤ (text t).length := by
+/-- the text in front of the terminator -/
+theorem take_text (t : List UInt8) : (t ++ [0]).take (text t).length = text t := by
+  obtain ⟨x, hx⟩ := nul_split t
+  rw [hx]
+  simp
+
+/-- the text ends with more than `maxStrLen` identifier bytes (the bytes of an unquoted key) -/
+theorem longTail_def (cfg : Cfg) (e : List UInt8) :
+    LongTail cfg e ↔ ∃ pre k, e = pre ++ k ∧ (∀ c ∈ k, inUnquoted c = true) ∧ cfg.maxStrLen < k.length := Iff.rfl
+
+/-- `LongTail` as a computation -/
+theorem longTail_iff (cfg : Cfg) (e : List UInt8) :
+    LongTail cfg e ↔ cfg.maxStrLen < (e.reverse.takeWhile inUnquoted).length := by
+  constructor
+  · rintro ⟨pre, k, rfl, hk, hl⟩
+    rw [List.reverse_append, List.takeWhile_append_of_pos (by intro a ha; exact hk a (List.mem_reverse.mp ha))]
+    simp only [List.length_append, List.length_reverse]
+    omega
+  · intro h
+    refine ⟨(e.reverse.dropWhile inUnquoted).reverse, (e.reverse.takeWhile inUnquoted).reverse, ?_, ?_, by simpa using h⟩
+    · rw [← List.reverse_append, List.takeWhile_append_dropWhile, List.reverse_reverse]
+    · intro c hc
+      have := List.all_takeWhile (p := inUnquoted) (l := e.reverse)
+      rw [List.all_eq_true] at this
+      exact this c (List.mem_reverse.mp hc)
+
+instance (cfg : Cfg) (e : List UInt8) : Decidable (LongTail cfg e) := decidable_of_iff _ (longTail_iff cfg e).symm
+
+/-- **C10 (`TooDeep` is answered inside the text).** -/
+theorem toodeep_stops_inside (cfg : Cfg) (L : Nat) (t : List UInt8) (h : (run cfg L t).1 = .tooDeep) :
+    (run cfg L t).2.2 ≤ (text t).length := by
   obtain ⟨e1, _, e3⟩ := nul_is_end cfg L t
-  have hs := (stop_facts cfg L t).2.2.2 (by rw [e1]; exact h)
+  have hs := (stop_facts cfg L t).2.2.2.1 (e1.trans h)
   rw [e3]; omega
+
+/-- **C10 (`NoMemory` is answered inside the text, or at the end of an unquoted key that is too long).** When the
+    answer is `NoMemory`, either the reader did not take the terminator, or it took the whole text and the terminator,
+    and then the text ends with more than `maxStrLen` identifier bytes: an unquoted key is read to its end (the byte
+    that ends it is taken as look-ahead) before its length is checked. -/
+theorem nomem_stops_inside (cfg : Cfg) (L : Nat) (t : List UInt8) (h : (run cfg L t).1 = .noMemory) :
+    (run cfg L t).2.2 ≤ (text t).length ∨
+    ((run cfg L t).2.2 = min ((text t).length + 1) t.length ∧ LongTail cfg (text t)) := by
+  obtain ⟨e1, _, e3⟩ := nul_is_end cfg L t
+  rcases (stop_facts cfg L t).2.2.2.2 (e1.trans h) with a | ⟨b1, b2⟩
+  · left; rw [e3]; omega
+  · right
+    rw [take_text] at b2
+    exact ⟨by rw [e3, b1], b2⟩
+
+/-- `TooDeep` and `NoMemory` together: the reader stands inside the text, except at the end of an unquoted key that is
+    too long. (Before the model correction for unquoted keys this read `… ≤ (text t).length`; that statement is false,
+    see `ClassExamples.old_stop_inside_false`.) -/
+theorem toodeep_nomem_stop_inside (cfg : Cfg) (L : Nat) (t : List UInt8)
+    (h : (run cfg L t).1 = .tooDeep ∨ (run cfg L t).1 = .noMemory) :
+    (run cfg L t).2.2 ≤ (text t).length + 1 ∧
+    (¬ ((run cfg L t).1 = .noMemory ∧ LongTail cfg (text t)) → (run cfg L t).2.2 ≤ (text t).length) := by
+  have hn := never_reads_past_nul cfg L t
+  refine ⟨by omega, fun hno => ?_⟩
+  rcases h with h | h
+  · exact toodeep_stops_inside cfg L t h
+  · rcases nomem_stops_inside cfg L t h with a | ⟨_, b⟩
+    · exact a
+    · exact absurd ⟨h, b⟩ hno
 
 /-! ## Finality -/
 
@@ -144,13 +207,47 @@ theorem invalid_never_ok (cfg : Cfg) (L : Nat) (t : List UInt8) (h : (run cfg L 
     (hd : ¬ Dangling cfg (text t)) (ext : List UInt8) : (run cfg L (text t ++ ext)).1 ≠ .ok := by
   rw [invalid_is_final cfg L t h hd ext, h]; exact Code.noConfusion
 
-/-- **C10 (`TooDeep` and `NoMemory` are final).** -/
-theorem toodeep_nomem_final (cfg : Cfg) (L : Nat) (t : List UInt8)
-    (h : (run cfg L t).1 = .tooDeep ∨ (run cfg L t).1 = .noMemory) (ext : List UInt8) :
+/-- **C10 (`TooDeep` is final).** -/
+theorem toodeep_final (cfg : Cfg) (L : Nat) (t : List UInt8) (h : (run cfg L t).1 = .tooDeep) (ext : List UInt8) :
     run cfg L (text t ++ ext) = run cfg L t := by
   obtain ⟨e1, _, _⟩ := nul_is_end cfg L t
   apply determined_by_text
-  exact (stop_facts cfg L t).2.2.2 (by rw [e1]; exact h)
+  exact (stop_facts cfg L t).2.2.2.1 (e1.trans h)
+
+/-- **C10 (`NoMemory` is final: code and document).** Every input that starts with the text is answered `NoMemory`, with
+    the same document. -/
+theorem nomem_final (cfg : Cfg) (L : Nat) (t : List UInt8) (h : (run cfg L t).1 = .noMemory) (ext : List UInt8) :
+    (run cfg L (text t ++ ext)).1 = .noMemory ∧ (run cfg L (text t ++ ext)).2.1 = (run cfg L t).2.1 := by
+  obtain ⟨e1, e2, _⟩ := nul_is_end cfg L t
+  obtain ⟨x, hx⟩ := nul_split t
+  have := run_nomem_final cfg L (text t) x ext (text_nz t) (by rw [← hx, e1]; exact h)
+  rw [← hx] at this
+  exact ⟨this.1, this.2.trans e2⟩
+
+/-- **C10 (`NoMemory` is final: the whole answer)**, unless the text ends with more than `maxStrLen` identifier bytes
+    (then a longer key is read further: `ClassExamples`). -/
+theorem nomem_final_triple (cfg : Cfg) (L : Nat) (t : List UInt8) (h : (run cfg L t).1 = .noMemory)
+    (hs : ¬ LongTail cfg (text t)) (ext : List UInt8) : run cfg L (text t ++ ext) = run cfg L t := by
+  obtain ⟨e1, _, _⟩ := nul_is_end cfg L t
+  apply determined_by_text
+  rcases (stop_facts cfg L t).2.2.2.2 (e1.trans h) with a | ⟨_, b2⟩
+  · exact a
+  · rw [take_text] at b2
+    exact absurd b2 hs
+
+/-- **C10 (`TooDeep` and `NoMemory` are final).** The code and the document are the same for every input that starts
+    with the text; so is the number of bytes taken, except for `NoMemory` on a text that ends with more than `maxStrLen`
+    identifier bytes. (Before the model correction for unquoted keys this was the equality of the whole answer in all
+    cases; that statement is false, see `ClassExamples.old_final_false`.) -/
+theorem toodeep_nomem_final (cfg : Cfg) (L : Nat) (t : List UInt8)
+    (h : (run cfg L t).1 = .tooDeep ∨ (run cfg L t).1 = .noMemory) (ext : List UInt8) :
+    (run cfg L (text t ++ ext)).1 = (run cfg L t).1 ∧ (run cfg L (text t ++ ext)).2.1 = (run cfg L t).2.1 ∧
+    (¬ ((run cfg L t).1 = .noMemory ∧ LongTail cfg (text t)) → run cfg L (text t ++ ext) = run cfg L t) := by
+  rcases h with h | h
+  · have := toodeep_final cfg L t h ext
+    exact ⟨by rw [this], by rw [this], fun _ => this⟩
+  · obtain ⟨a, b⟩ := nomem_final cfg L t h ext
+    exact ⟨by rw [a, h], b, fun hno => nomem_final_triple cfg L t h (fun hl => hno ⟨h, hl⟩) ext⟩
 
 /-! ## Prefixes of an accepted text -/
 
@@ -294,8 +391,12 @@ theorem prefix_of_accepted (cfg : Cfg) (L : Nat) (t p z : List UInt8) (h : (run 
     · have hx : p ++ [0] = p ++ 0 :: [] := rfl
       rw [hx] at b2
       exact dangling_of_dang b2
-  | tooDeep => have := sf.2.2.2 (Or.inl (e1.trans hc)); omega
-  | noMemory => have := sf.2.2.2 (Or.inr (e1.trans hc)); omega
+  | tooDeep => have := sf.2.2.2.1 (e1.trans hc); omega
+  | noMemory =>
+    -- `NoMemory` is final: `t` would be answered `NoMemory` too
+    have := (nomem_final cfg L p hc z).1
+    rw [htp, ← ht, h] at this
+    cases this
   | fuel => exact absurd hc hnf
   | ok =>
     refine Or.inr (Or.inr (Or.inr ⟨rfl, ?_⟩))
@@ -495,7 +596,11 @@ theorem incomplete_not_extendable :
     * `InvalidInput`: the last byte taken is a byte of the text, and then — unless the text ends with a number byte or
       a comment opener — the answer is the same for every input that starts with the text; or the text ends with a
       number byte / comment opener and the reader took all of it;
-    * `TooDeep`, `NoMemory`: answered inside the text; the same answer for every input that starts with the text. -/
+    * `TooDeep`: answered inside the text; the same answer for every input that starts with the text;
+    * `NoMemory`: answered inside the text, or the text ends with more than `maxStrLen` identifier bytes (an unquoted
+      key that is too long, read to its end) and the reader took all of it and the terminator; `NoMemory` and the same
+      document for every input that starts with the text; the same number of bytes too, unless the text ends with
+      more than `maxStrLen` identifier bytes. -/
 theorem classification (cfg : Cfg) (L : Nat) (t : List UInt8) :
     ((run cfg L t).1 = .ok ∧ Doc cfg L t (run cfg L t).2.1) ∨
     ((run cfg L t).1 = .empty ∧ DWs cfg (text t) ∧ (run cfg L t).2.2 = min ((text t).length + 1) t.length) ∨
@@ -505,8 +610,13 @@ theorem classification (cfg : Cfg) (L : Nat) (t : List UInt8) :
       ((1 ≤ (run cfg L t).2.2 ∧ (run cfg L t).2.2 ≤ (text t).length ∧ ∃ c, t[(run cfg L t).2.2 - 1]? = some c ∧ c ≠ 0) ∨
        ((run cfg L t).2.2 = min ((text t).length + 1) t.length ∧ Dangling cfg (text t))) ∧
       (¬ Dangling cfg (text t) → ∀ ext, run cfg L (text t ++ ext) = run cfg L t)) ∨
-    (((run cfg L t).1 = .tooDeep ∨ (run cfg L t).1 = .noMemory) ∧ (run cfg L t).2.2 ≤ (text t).length ∧
-      ∀ ext, run cfg L (text t ++ ext) = run cfg L t) := by
+    ((run cfg L t).1 = .tooDeep ∧ (run cfg L t).2.2 ≤ (text t).length ∧
+      ∀ ext, run cfg L (text t ++ ext) = run cfg L t) ∨
+    ((run cfg L t).1 = .noMemory ∧
+      ((run cfg L t).2.2 ≤ (text t).length ∨
+       ((run cfg L t).2.2 = min ((text t).length + 1) t.length ∧ LongTail cfg (text t))) ∧
+      (∀ ext, (run cfg L (text t ++ ext)).1 = .noMemory ∧ (run cfg L (text t ++ ext)).2.1 = (run cfg L t).2.1) ∧
+      (¬ LongTail cfg (text t) → ∀ ext, run cfg L (text t ++ ext) = run cfg L t)) := by
   have hnf := run_ne_fuel cfg L t
   cases hc : (run cfg L t).1 with
   | ok => exact Or.inl ⟨rfl, run_sound cfg L t hc⟩
@@ -519,11 +629,11 @@ theorem classification (cfg : Cfg) (L : Nat) (t : List UInt8) :
     exact Or.inr (Or.inr (Or.inr (Or.inl ⟨rfl, invalid_stops_inside cfg L t hc,
       fun hd ext => invalid_is_final cfg L t hc hd ext⟩)))
   | tooDeep =>
-    exact Or.inr (Or.inr (Or.inr (Or.inr ⟨Or.inl rfl, toodeep_nomem_stop_inside cfg L t (Or.inl hc),
-      fun ext => toodeep_nomem_final cfg L t (Or.inl hc) ext⟩)))
+    exact Or.inr (Or.inr (Or.inr (Or.inr (Or.inl ⟨rfl, toodeep_stops_inside cfg L t hc,
+      fun ext => toodeep_final cfg L t hc ext⟩))))
   | noMemory =>
-    exact Or.inr (Or.inr (Or.inr (Or.inr ⟨Or.inr rfl, toodeep_nomem_stop_inside cfg L t (Or.inr hc),
-      fun ext => toodeep_nomem_final cfg L t (Or.inr hc) ext⟩)))
+    exact Or.inr (Or.inr (Or.inr (Or.inr (Or.inr ⟨rfl, nomem_stops_inside cfg L t hc,
+      fun ext => nomem_final cfg L t hc ext, fun hs ext => nomem_final_triple cfg L t hc hs ext⟩))))
   | fuel => exact absurd hc hnf
 
 /-! ## Non-vacuity -/
@@ -578,8 +688,67 @@ example : (run { maxStrLen := 1 } 10 [0x22, 0x61, 0x62, 0x22]).1 = .noMemory ∧
     (run { maxStrLen := 1 } 10 [0x22, 0x61, 0x62, 0x22]).2.2 = 4 := by decide +kernel
 example (ext : List UInt8) : (run { maxStrLen := 1 } 10 ([0x22, 0x61, 0x62, 0x22] ++ ext)).1 = .noMemory ∧
     (run { maxStrLen := 1 } 10 ([0x22, 0x61, 0x62, 0x22] ++ ext)).2.2 = 4 := by
-  have h := toodeep_nomem_final { maxStrLen := 1 } 10 [0x22, 0x61, 0x62, 0x22] (Or.inr (by decide +kernel)) ext
+  have h := nomem_final_triple { maxStrLen := 1 } 10 [0x22, 0x61, 0x62, 0x22] (by decide +kernel) (by decide) ext
   have e : text [0x22, 0x61, 0x62, 0x22] = [0x22, 0x61, 0x62, 0x22] := by decide
+  rw [e] at h
+  rw [h]; decide +kernel
+
+/-- an unquoted key longer than `maxStrLen`: `{abc` and `{abc:1}` with `maxStrLen = 2`. The key is read to its end and
+    the byte after it is taken as look-ahead: 4 bytes for `{abc` (the end of the input), 5 for `{abc` NUL, 5 for
+    `{abc:1}`, 6 for `{abcd:1}` -/
+example : (run { maxStrLen := 2 } 10 [0x7B, 0x61, 0x62, 0x63]).1 = .noMemory ∧
+    (run { maxStrLen := 2 } 10 [0x7B, 0x61, 0x62, 0x63]).2.2 = 4 := by decide +kernel
+example : (run { maxStrLen := 2 } 10 [0x7B, 0x61, 0x62, 0x63, 0]).1 = .noMemory ∧
+    (run { maxStrLen := 2 } 10 [0x7B, 0x61, 0x62, 0x63, 0]).2.2 = 5 := by decide +kernel
+example : (run { maxStrLen := 2 } 10 [0x7B, 0x61, 0x62, 0x63, 0x3A, 0x31, 0x7D]).1 = .noMemory ∧
+    (run { maxStrLen := 2 } 10 [0x7B, 0x61, 0x62, 0x63, 0x3A, 0x31, 0x7D]).2.2 = 5 := by decide +kernel
+example : (run { maxStrLen := 2 } 10 [0x7B, 0x61, 0x62, 0x63, 0x64, 0x3A, 0x31, 0x7D]).1 = .noMemory ∧
+    (run { maxStrLen := 2 } 10 [0x7B, 0x61, 0x62, 0x63, 0x64, 0x3A, 0x31, 0x7D]).2.2 = 6 := by decide +kernel
+/-- the same key within the limit is accepted -/
+example : (run { maxStrLen := 3 } 10 [0x7B, 0x61, 0x62, 0x63, 0x3A, 0x31, 0x7D]).1 = .ok := by decide +kernel
+/-- `{abc` ends with 3 > 2 identifier bytes; `{abc:` does not -/
+example : LongTail { maxStrLen := 2 } [0x7B, 0x61, 0x62, 0x63] ∧ ¬ LongTail { maxStrLen := 2 } [0x7B, 0x61, 0x62, 0x63, 0x3A] ∧
+    ¬ LongTail { maxStrLen := 3 } [0x7B, 0x61, 0x62, 0x63] := by decide
+/-- `nomem_stops_inside` on `{abc` NUL: the second alternative (terminator taken, `LongTail`) is the one that holds -/
+example : (run { maxStrLen := 2 } 10 [0x7B, 0x61, 0x62, 0x63, 0]).2.2 =
+      min ((text [0x7B, 0x61, 0x62, 0x63, 0]).length + 1) 5 ∧ LongTail { maxStrLen := 2 } (text [0x7B, 0x61, 0x62, 0x63, 0]) := by
+  rcases nomem_stops_inside { maxStrLen := 2 } 10 [0x7B, 0x61, 0x62, 0x63, 0] (by decide +kernel) with h | h
+  · exact absurd h (by decide +kernel)
+  · exact h
+/-- the statement of `toodeep_nomem_stop_inside` before the model correction is false: on `{abc` NUL the answer is
+    `NoMemory` and 5 bytes are taken, the text has 4 -/
+theorem old_stop_inside_false :
+    ¬ ∀ (cfg : Cfg) (L : Nat) (t : List UInt8), ((run cfg L t).1 = .tooDeep ∨ (run cfg L t).1 = .noMemory) →
+      (run cfg L t).2.2 ≤ (text t).length := by
+  intro h
+  exact absurd (h { maxStrLen := 2 } 10 [0x7B, 0x61, 0x62, 0x63, 0] (Or.inr (by decide +kernel))) (by decide +kernel)
+/-- the statement of `toodeep_nomem_final` before the model correction is false: `{abc` takes 4 bytes, `{abc:` takes 5 -/
+theorem old_final_false :
+    ¬ ∀ (cfg : Cfg) (L : Nat) (t : List UInt8), ((run cfg L t).1 = .tooDeep ∨ (run cfg L t).1 = .noMemory) →
+      ∀ ext, run cfg L (text t ++ ext) = run cfg L t := by
+  intro h
+  have := h { maxStrLen := 2 } 10 [0x7B, 0x61, 0x62, 0x63] (Or.inr (by decide +kernel)) [0x3A]
+  have e : (run { maxStrLen := 2 } 10 (text [0x7B, 0x61, 0x62, 0x63] ++ [0x3A])).2.2 =
+      (run { maxStrLen := 2 } 10 [0x7B, 0x61, 0x62, 0x63]).2.2 := by rw [this]
+  exact absurd e (by decide +kernel)
+/-- `nomem_final` on `{abc`: whatever follows — a longer key, `:1}`, anything — the answer is `NoMemory` -/
+example (ext : List UInt8) : (run { maxStrLen := 2 } 10 ([0x7B, 0x61, 0x62, 0x63] ++ ext)).1 = .noMemory := by
+  have h := (nomem_final { maxStrLen := 2 } 10 [0x7B, 0x61, 0x62, 0x63] (by decide +kernel) ext).1
+  have e : text [0x7B, 0x61, 0x62, 0x63] = [0x7B, 0x61, 0x62, 0x63] := by decide
+  rw [e] at h
+  exact h
+/-- `nomem_final_triple` on `{abc:1}`: the text does not end inside the key, the whole answer is final -/
+example (ext : List UInt8) : (run { maxStrLen := 2 } 10 ([0x7B, 0x61, 0x62, 0x63, 0x3A, 0x31, 0x7D] ++ ext)).1 = .noMemory ∧
+    (run { maxStrLen := 2 } 10 ([0x7B, 0x61, 0x62, 0x63, 0x3A, 0x31, 0x7D] ++ ext)).2.2 = 5 := by
+  have h := nomem_final_triple { maxStrLen := 2 } 10 [0x7B, 0x61, 0x62, 0x63, 0x3A, 0x31, 0x7D] (by decide +kernel)
+    (by decide) ext
+  have e : text [0x7B, 0x61, 0x62, 0x63, 0x3A, 0x31, 0x7D] = [0x7B, 0x61, 0x62, 0x63, 0x3A, 0x31, 0x7D] := by decide
+  rw [e] at h
+  rw [h]; decide +kernel
+/-- `TooDeep` is final: `[[` with nesting limit 1 -/
+example (ext : List UInt8) : (run {} 1 ([0x5B, 0x5B] ++ ext)).1 = .tooDeep ∧ (run {} 1 ([0x5B, 0x5B] ++ ext)).2.2 = 2 := by
+  have h := toodeep_final {} 1 [0x5B, 0x5B] (by decide +kernel) ext
+  have e : text [0x5B, 0x5B] = [0x5B, 0x5B] := by decide
   rw [e] at h
   rw [h]; decide +kernel
 
